@@ -229,7 +229,41 @@ def rule4_rollback(ctx, views):
                     ok = any(f.on_edge(ic.id, True, anchor) for ic in f.order if ic.op == 'icmp' and ic.pred == 'slt' and
                              same_value(f, ic.ops[0], ld.id) and any(same_value(f, ic.ops[1], t.id) for t in tops))
                     ctx.ob('C02.4', name + ': takes only if b < top', ok, 'an element is taken only on the edge b < top', loc=anchor.loc)
-    ctx.floor('C02.4', 10)
+    # pop: the element returned is the one at the index pop claimed (top - 1); an empty queue is re-centred with top == base
+    f = ctx.need_fn(views['myth_queue_pop'], 'myth_queue_pop')
+    decs = [(st, ld) for st, ld, d in index_updates(f, TOP) if d == -1]
+    ctx.ob('C02.4', 'myth_queue_pop: claims the top slot', len(decs) == 1, 'top := top - 1', loc=f.loc)
+    nret = 0
+    for val, anchor in ret_cases(f):
+        isnull = isinstance(val, dict) and (val.get('null') or val.get('c') == 0)
+        if isnull:
+            continue
+        nret += 1
+        oks = False
+        for k in (f.sources(val) if isinstance(val, str) else []):
+            l = f.insts.get(k)
+            if l is None or l.op != 'load':
+                continue
+            ixs = [x for x in f.ap(l.ops[0]).steps if x[0] in ('p', 'i')]
+            if is_load_of(f, f.ap(l.ops[0]).root, PTR) and ixs and decs and not lib.affine_diff(f, ixs[-1][1], decs[0][0].ops[0]):
+                oks = True
+        ctx.ob('C02.4', 'myth_queue_pop: returns the element of the claimed slot', oks,
+               'the thread handed out is q->ptr[top - 1], the slot whose index was just published as the new top', loc=anchor.loc,
+               detail=describe(f, val))
+    ctx.ob('C02.4', 'myth_queue_pop: element-returning exits', nret >= 2, 'fast path and locked path', loc=f.loc)
+    for val, anchor in ret_cases(f):
+        if not (isinstance(val, dict) and (val.get('null') or val.get('c') == 0)):
+            continue
+        if not decs or not reaches_point(f, decs[0][0], anchor):
+            continue
+        tst = [st for st in f.stores_to(TOP) if st is not decs[0][0] and reaches_point(f, st, anchor)]
+        bst = [st for st in f.stores_to(BASE) if reaches_point(f, st, anchor)]
+        okr = len(tst) == 1 and len(bst) == 1 and lib.same_expr(f, tst[0].ops[0], bst[0].ops[0]) and \
+            not reaches_point(f, decs[0][0], anchor, blocked=tst) and not reaches_point(f, decs[0][0], anchor, blocked=bst)
+        ctx.ob('C02.4', 'myth_queue_pop: an empty queue is left with top == base', okr,
+               'after the failed claim both indices are re-centred to the same value (a top left one below base makes the next push '
+               'publish a slot the thieves already passed)', loc=anchor.loc)
+    ctx.floor('C02.4', 14)
 
 
 def rank_index(f, key):
@@ -580,6 +614,10 @@ WSQ = 'src/myth_wsqueue_func.h'
 NAT = 'src/myth_if_native.c'
 SCHED = 'src/myth_sched_func.h'
 MUTANTS = [
+    {'name': 'pop returns without reading the claimed slot (sweep M0449)', 'expect': 'C02.4',
+     'edits': [(WSQ, "  if (base + 1 < top){\n    ret = q->ptr[top];", "  if (base + 1 < top){\n    ret = q->ptr[top + 1];")]},
+    {'name': 'pop leaves top below base on an empty queue (sweep M0451)', 'expect': 'C02.4',
+     'edits': [(WSQ, "      q->top = q->size/2;\n      q->base = q->size/2;\n      myth_wsqueue_lock_unlock(&q->lock);", "      q->base = q->size/2;\n      myth_wsqueue_lock_unlock(&q->lock);")]},
     {'name': 'join callback does not record the resumed thread as current (sweep M0358)', 'expect': 'C02.6',
      'edits': [('src/myth_sched_func.h', "  //Change current running thread\n  env->this_thread=next_thread;\n  //myth_log_add(env,MYTH_LOG_USER);\n}\n\nMYTH_CTX_CALLBACK void myth_join_3", "  //myth_log_add(env,MYTH_LOG_USER);\n}\n\nMYTH_CTX_CALLBACK void myth_join_3")]},
     {'name': 'block_on_queue goes to the scheduler when it has a thread (sweep M0193)', 'expect': 'C02.6',
